@@ -89,7 +89,8 @@ class SeedGen(Gen):
                     i = r.choice(spots)
                     a["effects"] = [dict(ef, c=q) if j == i else ef for j, ef in enumerate(a["effects"])]
                 else:
-                    a["pre"] = a["pre"] + [q]
+                    # half of the time the quantified condition IS the precondition (not one conjunct among random others)
+                    a["pre"] = (a["pre"] if r.random() < 0.5 else []) + [q]
         return a
 
     def num_expr(self, depth, params, vs, intonly=False, nodiv=True):
